@@ -64,7 +64,7 @@ impl Compile for WhileLoop {
 impl Dependencies for WhileLoop {
     fn dependencies(&self) -> Vec<super::Dependency> {
         let mut condition_dependencies = self.condition.net_dependencies();
-        condition_dependencies.append(&mut self.body.net_dependencies());
+        condition_dependencies.append(&mut self.body.net_dependencies_within_function());
         condition_dependencies
     }
 }
